@@ -157,9 +157,25 @@ def run(ctx):
             and rets['%s._fetch(limit=stop - start, offset=start)' % recv].id not in g.reach(ts)
     ctx.ob('C24-SLICE.window-arithmetic', gi, gi.node, ok, '' if ok else 'slice -> (limit, offset) mapping changed: returns are %s' % sorted(rets))
     pg = repo.fn(CORE, 'Query.page')
-    txt = [norm(s) for s in walk_no_nested(pg.node) if isinstance(s, ast.stmt)]
-    ok = 'offset = (pagenum - 1) * pagesize' in txt and any(t.startswith('return %s._fetch(pagesize, offset' % pg.recv) for t in txt)
-    ctx.ob('C24-SLICE.page-window', pg, pg.node, ok, '' if ok else 'page() window is %s' % txt)
+    # page(n, size) fetches `size` rows from offset (n - 1) * size: the arguments of the _fetch call, with single-assignment locals resolved, are
+    # evaluated on sample page numbers and sizes (a whitelisted arithmetic evaluator, q.concrete_eval; nothing of pony runs)
+    from ..q import resolve_names, concrete_eval, Unknown
+    fetches = [c for c in calls_in(pg.node) if isinstance(c.func, ast.Attribute) and c.func.attr == '_fetch']
+    ok = len(fetches) == 1 and len(pg.params) >= 3; why = 'page() does not end in one _fetch call'
+    if ok:
+        c = fetches[0]
+        args = {k.arg: k.value for k in c.keywords if k.arg}
+        if len(c.args) > 0: args.setdefault('limit', c.args[0])
+        if len(c.args) > 1: args.setdefault('offset', c.args[1])
+        pn, ps = pg.params[1], pg.params[2]
+        try:
+            for n_, size_ in ((1, 10), (2, 10), (3, 7), (5, 1)):
+                env = {pn: n_, ps: size_}
+                lim = concrete_eval(resolve_names(pg.node, args['limit']), env); off = concrete_eval(resolve_names(pg.node, args['offset']), env)
+                if (lim, off) != (size_, (n_ - 1) * size_): ok = False; why = 'page(%d, %d) fetches limit=%r offset=%r' % (n_, size_, lim, off)
+        except (Unknown, KeyError) as e_:
+            ok = False; why = 'the window handed to _fetch is not an arithmetic expression of the page number and size (%s)' % type(e_).__name__
+    ctx.ob('C24-SLICE.page-window', pg, pg.node, ok, '' if ok else why)
     for qual, sl in (('Query.get', '[:2]'), ('Query.exists', '[:1]'), ('Query.first', '[:1]')):
         f = repo.fn(CORE, qual)
         ok = any(isinstance(s, ast.Subscript) and isinstance(s.slice, ast.Slice) and s.slice.lower is None and norm(s.slice.upper) == sl[2:-1] for s in walk_no_nested(f.node))
